@@ -42,7 +42,10 @@ def decode_status(sw):
 
 
 class Drive:
-    def __init__(self, state, auto_delay=0):
+    def __init__(self, state, auto_delay=0, qsa_auto=False):
+        # qsa_auto: quick stop option code 1/2/3 - the drive leaves QUICK STOP ACTIVE on its own for SWITCH ON
+        # DISABLED (transition 12) once the stop is complete, and does not offer transition 16
+        self.qsa_auto = qsa_auto
         self.state = state
         self.cw = 0
         self.trace = [state]
@@ -73,6 +76,11 @@ class Drive:
         disable_voltage = b(1) == 0
         quick_stop = b(2) == 0 and b(1) == 1
         s = self.state
+        if s == QSA and self.qsa_auto and self.auto_delay >= 2:
+            # the quick stop ramp ends just as the command arrives: automatic transition 12, command not acted upon
+            self.auto_delay = 0
+            self._go(SOD)
+            return
         if s == SOD:
             if shutdown:
                 self._go(RTSO)           # 2
@@ -103,10 +111,18 @@ class Drive:
         elif s == QSA:
             if disable_voltage:
                 self._go(SOD)            # 12
-            elif enable_op:
+            elif enable_op and not self.qsa_auto:
                 self._go(OE)             # 16
 
     def _auto(self):
+        if self.qsa_auto and self.state == QSA:
+            if self.auto_delay >= 2:
+                return                   # leaves with the next controlword write (see write_controlword)
+            if self.auto_delay > 0:
+                self.auto_delay -= 1
+                return
+            self._go(SOD)                # 12, automatic
+            return
         if self.state in (NOT_READY, FRA):
             if self.auto_delay > 0:
                 self.auto_delay -= 1
